@@ -291,6 +291,9 @@ def run(rep):
     rep.guarded("R-C10-scratch", lambda r: fftunit.rule_scratch(r, "R-C10-scratch"))
     rep.floor("R-C10-scratch", 5)
     rep.clause("R-C10-scratch", "FFT unit: padding half and spectrum tail are cleared over their whole length before each transform (stale content would alias into the output) - shared with C10")
+    import shares
+    shares.step(rep, ("SincFixedIn", "SincFixedOut"), "an irregular output grid is spurious content at the images")
+    shares.carry(rep, ("SincFixedIn", "SincFixedOut"), "misaligned history is broadband error, far above the stopband floor")
     import paramflow
     rep.guarded("R-C02-params-flow", paramflow.run)
     rep.floor("R-C02-params-flow", 49)
